@@ -376,6 +376,22 @@ def real_thresholds(ctx, big):
         raw = RawState(path)
         if raw.loose_paths or len(raw.rows) != len(model) + 1:
             raise Violation(PROP, 'real:pack-clean', f'after pack+clean: {len(raw.loose_paths)} loose, {len(raw.rows)} rows')
+        # more than 950 loose objects at once (several IN batches), some of them already packed
+        fresh = [b'second-wave-%d' % i for i in range(900)]
+        for blob in fresh + datas[100:160]:
+            cont.add_object(blob)
+        before = RawState(path)
+        cont.pack_all_loose()
+        after = RawState(path)
+        if len(after.rows) != len(before.rows) + len(fresh):
+            raise Violation(PROP, 'real:pack-many-loose', f'packing 960 loose objects (60 already packed) added {len(after.rows) - len(before.rows)} rows, expected {len(fresh)}')
+        growth = sum(after.pack_sizes.values()) - sum(before.pack_sizes.values())
+        if growth != sum(len(b) for b in fresh):
+            raise Violation(PROP, 'real:pack-many-loose-growth', f'packs grew by {growth} bytes, the 900 new objects have {sum(len(b) for b in fresh)}')
+        cont.clean_storage()
+        if RawState(path).loose_paths:
+            raise Violation(PROP, 'real:clean-many-loose', 'clean_storage left loose files that are packed')
+        ctx.stats.record(True, ['real', 'pack-many-loose'], {'real_thresholds': 'pack_all_loose with 960 loose objects, 60 already packed'})
     finally:
         cont.close()
         rm_dir(root)
